@@ -4,7 +4,7 @@ import ast
 from ..core import AnalysisError, dotted, call_name, src, walk_local
 from ..flow import edge_facts, leaves, linear, Lin
 from ..rules import (flow_of, state_writes, facts_at, calls_in, bind_args, canon, lin, is_lin, cmp_norm, collect_list,
-                     region, in_loop_within)
+                     region, in_loop_within, visits_all_stations, is_station_pos, is_evse_at)
 from ..nullflow import check_queue_timestamp
 
 EXPLANATION = ("Static rules over Simulator._update_schedules, _increase_width and ChargingNetwork.update_pilots: no path from "
@@ -288,8 +288,7 @@ def rule_broadcast(ck, rid="C04.R6"):
     head = loops[0]
     it = fl.expand(head.stmt.iter, head)
     ci = canon(it)
-    ok_iter = ci in ("range(len(self.station_ids))", "enumerate(self.station_ids)", "range(len(self._EVSEs))", "enumerate(self._EVSEs)",
-                     "enumerate(self._EVSEs.keys())", "range(len(self._voltages))")
+    ok_iter = visits_all_stations(it)
     ck.require(ok_iter, rid, up, head.stmt.iter, ok="loops over every registered station", bad=f"update_pilots must visit every station index; iterates {ci}",
                sink="broadcast-iter")
     true_edge = [s for s in head.succ if s.kind == "edge" and s.label][0]
@@ -303,13 +302,11 @@ def rule_broadcast(ck, rid="C04.R6"):
     if isinstance(pv, ast.Subscript) and canon(pv.value) == pilots and isinstance(pv.slice, ast.Tuple) and len(pv.slice.elts) == 2:
         row, col = pv.slice.elts
         idx_s = canon(row)
-        ok = idx_s in ("__idx__(self.station_ids)", "__idx__(self._EVSEs)", "__idx__(self._voltages)", "__idx__(self._EVSEs.keys())") \
-            and linear(col, norm=canon) == Lin({i: 1})
+        ok = is_station_pos(idx_s) and linear(col, norm=canon) == Lin({i: 1})
     ck.require(ok, rid, up, c, ok="pilot = pilots[station number, i] (exactly column i)", bad="the pilot sent must be pilots[<station index>, i] with exactly the given period",
                sink="broadcast-cell")
     recv = fl.expand(c.func.value, n)
-    ok = isinstance(recv, ast.Subscript) and canon(recv.value) == "self._EVSEs" and idx_s is not None and \
-        canon(recv.slice) in (f"self.station_ids[{idx_s}]", "__elem__(self.station_ids)", "__elem__(self._EVSEs)", "__elem__(self._EVSEs.keys())")
+    ok = idx_s is not None and is_evse_at(canon(recv), idx_s)
     ck.require(ok, rid, up, c.func.value, ok="the EVSE is the one at the same station number", bad="the EVSE receiving the pilot is not the station of the same index",
                sink="broadcast-evse")
 
